@@ -389,8 +389,8 @@ def discharge_undecided(rep, item):
 
 def run(F, rep, fns):
     rep.rule(RULE, "an expression / literal pattern of a function arm is compared with the argument: the mode constant that reaches the pattern matcher from the function-arm "
-                   "selector (and from the state-machine arms) - explicitly or through mode-less wrappers - is one under which every verdict made from the evaluated pattern "
-                   "depends on the matched value; nested patterns are matched in the mode of the whole pattern; all match-expression sites use one mode")
+                   "selector, from the state-machine arms and from the match-expression arms - explicitly or through mode-less wrappers - is one under which every verdict made "
+                   "from the evaluated pattern depends on the matched value; nested patterns are matched in the mode of the whole pattern; all match-expression sites use one mode")
     items = F.syn(CRATE)
     fam = Family(items, fns)
     if not rep.check(len(fam.matchers) >= 1, RULE, "anchor:pattern-matchers", "no function with a `&Pattern` parameter, a value parameter and a bool verdict found in the interpreter"):
@@ -507,6 +507,22 @@ def run(F, rep, fns):
         rep.check(not odd, RULE, "match-arm:sites-agree-on-mode" if not odd else "match-arm:sites-disagree-on-mode",
                   "the match-expression sites do not test arm patterns in one mode: %s" % "; ".join("%s uses %s" % (s, fmt_ctxs(fam, cs.values())) for s, cs, r in ms),
                   sample={"sites": [(s, fmt_ctxs(fam, cs.values())) for s, cs, r in ms]})
+        if not odd:
+            # the match-expression arms as a whole: the mode they all use must compare a LITERAL pattern with the source value as well
+            cs = ms[0][1]
+            badk = sorted((k for k in cs if blind.get(k)), key=lambda k: ctx_text(fam, cs[k]))
+            undk = [k for k in cs if undecided.get(k) and not blind.get(k)]
+            if undk and not badk:
+                rep.obligations += 1
+                rep.discharged += 1
+            else:
+                ex = blind[badk[0]][0] if badk else None
+                rep.check(not badk, RULE, "match-arm:pattern-compared-with-value" if not badk else "match-arm:pattern-not-compared-with-value",
+                          "%s test a match arm's pattern in %s; there %s decides %s by `%s`, which does not read the matched value: a pattern expression that evaluates to a "
+                          "Bool - including the LITERAL patterns `true` / `false` - is taken as a condition, so `| true => ..` matches every source value and `| false => ..` none" % (
+                              " and ".join(sorted({s_ for s_, _c, _r in ms})), fmt_ctxs(fam, [cs[k] for k in badk]), ex[0] if ex else "?",
+                              "an evaluated expression pattern" if ex and ex[1] == "evaluated" else "a repeated variable", ex[2] if ex else "?"),
+                          "%s (mech_interpreter.lib)" % sorted({s_ for s_, _c, _r in ms})[0].split(":")[0], sample={"sites": sorted({s_ for s_, _c, _r in ms}), "contexts": fmt_ctxs(fam, cs.values())})
     rep.floor(RULE, "function-arm sites", len(by_role.get("function-arm", [])), 1)
     rep.analysed = dict(getattr(rep, "analysed", {}) or {}, **{"c16_r12": {
         "mode": fam.mode.name if fam.mode else None, "comparing": sorted(ctx_text(fam, ctxs[k]) for k in comparing),
